@@ -65,10 +65,27 @@ package types
 //@   pure_fn
 //@   ensures result != nil && len(result) == 32
 
+// call bookkeeping of Validate: which root / leaf / level count / index the most recent verification was run with
+//@ ghost mvN int
+//@ ghost mvOK bool
+//@ ghost mvReplay bool
+//@ ghost mvRoot x/pocketcore/types.HashRange
+//@ ghost mvLeaf Iface
+//@ ghost mvLevels int
+//@ ghost mvHeight int
+//@ ghost mvIndex int
 // Validate: what a successful verification implies about the inputs.
 //@ func (MerkleProof).Validate
 //@   props C30,C12
-//@   modifies all
+//@   modifies nothing
+//@   logs mvN == old(mvN) + 1
+//@   logs mvOK == isValid
+//@   logs mvReplay == isReplayAttack
+//@   logs mvRoot == root
+//@   logs mvLeaf == leaf
+//@   logs mvLevels == numOfLevels
+//@   logs mvHeight == height
+//@   logs mvIndex == mp.TargetIndex
 //@   ensures [valid-not-replay] isValid ==> !isReplayAttack
 //@   ensures [root-lower-zero] isValid ==> root.Range.Lower == 0
 //@   ensures [leaf-hash-bound] isValid ==> bytes(mp.Target.Hash) == mh(leafBytes(leaf))
@@ -93,3 +110,150 @@ package types
 //@   modifies elems(data)
 //@   ensures len(nextLevelData) == len(data) / 2 && atRoot == (len(data) == 2) && ref(nextLevelData) == ref(data) && off(nextLevelData) == off(data)
 //@   loop 0 invariant 0 - 1 <= rangeindex && rangeindex < len(data) && frame_elems(data)
+
+// ---- C35: relays are served only with valid client and application authorization ---------------
+// hex strings: unhex(s) the decoded bytes; keyOfHex(s) the public key a hex string decodes to
+// (declared with the specs of encoding/hex and crypto.NewPublicKey)
+// verification of a hex-encoded signature over a hex-encoded message with a hex-encoded key
+//@ func SignatureVerification
+//@   props C35,C14
+//@   modifies nothing
+//@   ensures [verified] result == nil ==> sigVerify(keyOfHex(publicKeyHex), unhex(msgHex), unhex(sigHex)) && len(unhex(sigHex)) == 64
+
+// package-level error values are initialised once (errors.New) and never nil
+//@ global MissingTokenVersionError value != nil
+//@ global UnsupportedTokenVersionError value != nil
+//@ global MissingApplicationPublicKeyError value != nil
+//@ global MissingClientPublicKeyError value != nil
+//@ global InvalidTokenSignatureError value != nil
+// application authentication token: the application key signs the hash of (application key, client key, version)
+//@ pure aatHashHex(appPk Str, clientPk Str, version Str) Str
+//@ func (AAT).HashString
+//@   trusted hex(SHA3-256(JSON of the token with the signature field blanked)): a function of the other three fields
+//@   pure_fn
+//@   ensures result == aatHashHex(a.ApplicationPublicKey, a.ClientPublicKey, a.Version)
+//@ func PubKeyVerification
+//@   trusted format check of a hex public key (length after hex decoding)
+//@   pure_fn
+//@ func NetworkIdentifierVerification
+//@   trusted format check of a chain identifier
+//@   pure_fn
+//@ func HashVerification
+//@   trusted format check of a hex hash
+//@   pure_fn
+//@ func (AAT).VersionIsSupported
+//@   props C35
+//@   modifies nothing
+//@   loop 0 invariant 0 - 1 <= rangeindex && rangeindex < len(global(SupportedTokenVersions))
+//@ func (AAT).ValidateSignature
+//@   props C35
+//@   modifies nothing
+//@   ensures [app-signed] result == nil ==> sigVerify(keyOfHex(a.ApplicationPublicKey), unhex(aatHashHex(a.ApplicationPublicKey, a.ClientPublicKey, a.Version)), unhex(a.ApplicationSignature))
+//@ func (AAT).Validate
+//@   props C35
+//@   modifies nothing
+//@   ensures [token-valid] result == nil ==> a.Version != "" && len(a.ApplicationPublicKey) != 0 && len(a.ClientPublicKey) != 0 && sigVerify(keyOfHex(a.ApplicationPublicKey), unhex(aatHashHex(a.ApplicationPublicKey, a.ClientPublicKey, a.Version)), unhex(a.ApplicationSignature))
+
+// relay proof: the CLIENT key named in the token signs the hash of the proof (without its signature)
+//@ pure rpHashHex(entropy int, sbh int, servicer Str, chain Str, reqHash Str, tokenHash Str) Str
+//@ func (RelayProof).HashString
+//@   trusted hex(SHA3-256(JSON of the proof with the signature field blanked and the token replaced by its hash)): a function of the other fields
+//@   pure_fn
+//@   ensures result == rpHashHex(rp.Entropy, rp.SessionBlockHeight, rp.ServicerPubKey, rp.Blockchain, rp.RequestHash, aatHashHex(rp.Token.ApplicationPublicKey, rp.Token.ClientPublicKey, rp.Token.Version))
+//@ pure rpAuth(rp RelayProof) bool = rp.SessionBlockHeight >= 1 && rp.Entropy >= 0 && sigVerify(keyOfHex(rp.Token.ApplicationPublicKey), unhex(aatHashHex(rp.Token.ApplicationPublicKey, rp.Token.ClientPublicKey, rp.Token.Version)), unhex(rp.Token.ApplicationSignature)) && sigVerify(keyOfHex(rp.Token.ClientPublicKey), unhex(rpHashHex(rp.Entropy, rp.SessionBlockHeight, rp.ServicerPubKey, rp.Blockchain, rp.RequestHash, aatHashHex(rp.Token.ApplicationPublicKey, rp.Token.ClientPublicKey, rp.Token.Version))), unhex(rp.Signature))
+//@ func (RelayProof).ValidateBasic
+//@   props C35
+//@   modifies nothing
+//@   ensures [client-and-app-authorised] result == nil ==> rpAuth(rp)
+
+// against the session: same session height, and the chain is one the application staked for
+//@ func (RelayProof).Validate
+//@   props C35,C32
+//@   modifies nothing
+//@   ensures [height] result == nil ==> rp.SessionBlockHeight == sessionBlockHeight
+//@   ensures [chain-staked-by-app] result == nil ==> exists j int :: 0 <= j && j < len(appSupportedBlockchains) && appSupportedBlockchains[j] == rp.Blockchain
+//@   loop 0 invariant 0 - 1 <= rangeindex && rangeindex < len(appSupportedBlockchains)
+//@   loop 0 invariant !c1
+
+// against the servicing node: additionally the proof names THIS node's key
+//@ ghost vlN int
+//@ ghost vlOK bool
+//@ ghost vlProof x/pocketcore/types.RelayProof
+//@ ghost vlAddr Bytes
+//@ ghost vlHeight int
+//@ func (RelayProof).ValidateLocal
+//@   props C35
+//@   modifies nothing
+//@   logs vlN == old(vlN) + 1
+//@   logs vlOK == (result == nil)
+//@   logs vlProof == rp
+//@   logs vlAddr == bytes(expectedServicerAddr)
+//@   logs vlHeight == sessionBlockHeight
+//@   ensures [authorised] result == nil ==> rpAuth(rp)
+//@   ensures [names-this-node] result == nil ==> addrEq(pkAddr(keyOfHex(rp.ServicerPubKey)), bytes(expectedServicerAddr))
+//@   ensures [height-and-chain] result == nil ==> rp.SessionBlockHeight == sessionBlockHeight && (exists j int :: 0 <= j && j < len(appSupportedBlockchains) && appSupportedBlockchains[j] == rp.Blockchain)
+
+// node-local caches read by relay validation (evidence store, session store, bloom filter)
+//@ func GetTotalProofs
+//@   trusted node-local evidence cache lookup: does not touch the relay or any chain state
+//@   pure_fn
+//@ func IsUniqueProof
+//@   trusted bloom-filter membership test on the node-local evidence
+//@   pure_fn
+//@ func (*CacheStorage).IsSealed
+//@   trusted node-local evidence cache lookup
+//@   pure_fn
+//@ func GetSession
+//@   trusted node-local session cache lookup
+//@   pure_fn
+//@ func SetSession
+//@   trusted node-local session cache write
+//@   pure_fn
+//@ func (*HostedBlockchains).Contains
+//@   trusted lookup in the node's hosted-chains table (mutex + map)
+//@   pure_fn
+//@   ensures result == hosted(c, id)
+//@ pure hosted(hb *HostedBlockchains, id Str) bool
+//@ func GetAppFromPublicKey
+//@   trusted application lookup through the apps keeper interface (key decoding + store read)
+//@   pure_fn
+//@ func MaxPossibleRelays
+//@   trusted decimal arithmetic over the application's allowance (see C28 for the allowance itself)
+//@   modifies bigv
+//@   ensures result.i != nil && fresh(result.i)
+//@   ensures forall p int {bigv[p]} :: isold(p) ==> bigv[p] == old(bigv[p])
+//@ pure reqHashHex(p Payload, m RelayMeta) Str
+//@ func (Relay).RequestHashString
+//@   trusted hex(SHA3-256(JSON of payload and meta)): a function of the request
+//@   pure_fn
+//@   ensures result == reqHashHex(r.Payload, r.Meta)
+//@ pure nodeAddr(n *PocketNode) Bytes
+//@ func (*PocketNode).GetAddress
+//@   trusted address of the node's key (key derivation is external)
+//@   pure_fn
+//@   ensures bytes(result) == nodeAddr(n)
+
+// Relay.Validate: a relay is accepted for service only if its request hash is the one the client
+// signed, the chain is hosted here, the proof is for the session being served, and ValidateLocal
+// accepted the proof for THIS node (client + application signatures, node key, session height,
+// application chain) - and the relay object itself was not altered while validating
+//@ func (*Relay).Validate
+//@   props C35
+//@   modifies all
+//@   ensures [client-and-app-authorised] err == nil ==> rpAuth(old(r.Proof))
+//@   ensures [proof-names-this-node] err == nil ==> addrEq(pkAddr(keyOfHex(old(r.Proof.ServicerPubKey))), nodeAddr(servicerNode))
+//@   ensures [request-bound] err == nil ==> old(r.Proof.RequestHash) == reqHashHex(old(r.Payload), old(r.Meta))
+//@   ensures [hosted] err == nil ==> hosted(hb, old(r.Proof.Blockchain))
+//@   ensures [session-height] err == nil ==> old(r.Proof.SessionBlockHeight) == sessionBlockHeight
+
+// the servicing node must be one of the session's nodes, and the session must be for a chain the
+// application staked for
+//@ func (SessionNodes).Validate
+//@   trusted structural check of the node list (count, no empty entries)
+//@   pure_fn
+//@ func (Session).Validate
+//@   props C35,C33
+//@   modifies nothing
+//@   ensures [node-in-session] result == nil ==> node != nil && (exists j int :: 0 <= j && j < len(s.SessionNodes) && s.SessionNodes[j] != nil && addrEq(bytes(s.SessionNodes[j]), bytes(node)))
+//@   ensures [basic] result == nil ==> len(s.SessionHeader.Chain) != 0 && s.SessionHeader.SessionBlockHeight >= 1
+//@   loop 0 invariant 0 - 1 <= rangeindex && rangeindex < len(chains)
